@@ -292,7 +292,7 @@ func (c *Ctx) c12Scripts() error {
 }
 
 func runC12(c *Ctx) error {
-	c.Rep.Rule = "intmap: histories of Set/Assign/Get/Delete/Len/Copy/use over key pools that are sequential, colliding in the low bits, scattered or negative, on up to 4 tables related by Copy, the whole slot array (distance, key) compared with the model at dumps; half of the histories without Delete (the VM never deletes); struct-script: struct types with 0..200 fields (int and byte) and 0..120 methods, two instances and an alias, random field writes, compound updates, reads and method calls; late-methods: instances, an alias and an instance of a defined type created while the type has m1 methods, further methods up to m2 (crossing the method table's growth thresholds) defined by later evaluations, then called on old and new instances; distinct = distinct history/script; non-trivial = history of more than 20 ops / more than 5 fields"
+	c.Rep.Rule = "intmap: histories of Set/Assign/Get/Delete/Len/Copy/use over key pools that are sequential, colliding in the low bits, scattered or negative, on up to 4 tables related by Copy, the whole slot array (distance, key) compared with the model at dumps; half of the histories without Delete (the VM never deletes); struct-script: struct types with 0..200 fields (int and byte) and 0..120 methods, two instances and an alias, random field writes, compound updates, reads and method calls; composite-fields: a struct with slice, map and pointer fields of different element types in random order, the declared type of every field's zero value observed through append / nil-map reads; late-methods: instances, an alias and an instance of a defined type created while the type has m1 methods, further methods up to m2 (crossing the method table's growth thresholds) defined by later evaluations, then called on old and new instances; distinct = distinct history/script; non-trivial = history of more than 20 ops / more than 5 fields"
 	n, maxOps := 600, 120
 	if c.Thorough() {
 		n, maxOps = 30000, 400
@@ -334,6 +334,7 @@ func runC12(c *Ctx) error {
 		return err
 	}
 	c.c12LateMethods()
+	c.c12CompositeFields()
 	return nil
 }
 
@@ -408,6 +409,46 @@ func (c *Ctx) c12LateMethods() {
 				e = " ERR " + err.Error()
 			}
 			c.Rep.Violate(Violation{Kind: "oracle", Cut: "late-methods", Input: script, Impl: got + e, Oracle: strings.Join(want, "\n")})
+		}
+	}
+}
+
+// c12CompositeFields: fields of slice, map and pointer types in a random order (so that fields whose types share a
+// head symbol stand next to each other): the zero value of each field has the field's OWN declared type, seen through
+// what an append to the nil slice / a read of the nil map yields
+func (c *Ctx) c12CompositeFields() {
+	r := c.RNG
+	n := 6
+	if c.Thorough() {
+		n = 200
+	}
+	fields := []string{"A []float64", "B []int", "S []string", "M map[string]float64", "N map[string]int", "P *Q", "O *R", "F float64", "G []byte", "I int", "H map[int]byte"}
+	for it := 0; it < n; it++ {
+		perm := append([]string{}, fields...)
+		for i := len(perm) - 1; i > 0; i-- {
+			j := r.Intn(i + 1)
+			perm[i], perm[j] = perm[j], perm[i]
+		}
+		var sb strings.Builder
+		sb.WriteString("type Q struct {\n\tX int\n}\ntype R struct {\n\tY float64\n}\ntype C struct {\n")
+		for _, f := range perm {
+			sb.WriteString("\t" + f + "\n")
+		}
+		sb.WriteString("}\nfunc run() {\nc := &C{}\nd := &C{}\n_ = d\n")
+		sb.WriteString("c.A = append(c.A, 7)\nc.B = append(c.B, 7)\nc.G = append(c.G, 250)\nc.S = append(c.S, \"s\")\n")
+		sb.WriteString("println(c.A[0]/2, c.B[0]/2, c.G[0]+10, (c.M[\"x\"]+7)/2, (c.N[\"x\"]+7)/2, c.H[3]+255+2, c.P == nil, c.O == nil, len(c.S), c.F+0.5, (c.I+7)/2)\n")
+		sb.WriteString("c.P = &Q{X: 7}\nc.O = &R{Y: 7}\nprintln(c.P.X/2, c.O.Y/2, len(d.A), len(d.S), d.P == nil)\n}\nrun()\n")
+		src := sb.String()
+		out, err := runScript(src)
+		want := "3.5 3 4 3.5 3 1 true true 1 0.5 3\n3 3.5 0 0 true"
+		c.Rep.Oracle["composite-field-zero-types"]++
+		c.Rep.Seen(src, true)
+		if got := strings.TrimSpace(out); err != nil || got != want {
+			e := ""
+			if err != nil {
+				e = " ERR " + err.Error()
+			}
+			c.Rep.Violate(Violation{Kind: "oracle", Cut: "composite-field-zero-types", Input: src, Impl: got + e, Oracle: want})
 		}
 	}
 }
